@@ -618,12 +618,14 @@ def http_feed_data(u: U):
                                          hd._byte_term(a + j) == z3.If(j % 2 == 0, z3.IntVal(13), z3.IntVal(10))))
         u.check("C01.skip.only_empty_lines", mk_bool(z3.And((b - a) % 2 == 0, crlf)),
                 "the only bytes dropped in front of a start line are whole CRLF sequences (empty lines); a bare CR or LF "
-                "there is not skipped but left to be refused", witness={"skipped": mk_int(b - a)})
+                "there is not skipped but left to be refused",
+                witness={"skipped": mk_int(b - a), "unconsumed_input": hd.slice(head["start_pos"], None)})
 
     def retained_obligations():
         u.check("C10.limit.header_count", p._lines.sym_len() <= p.max_headers,
                 "the header lines buffered for an unfinished message head never number more than max_headers: the count is "
-                "checked as each line is buffered, not when the block ends", witness={"lines": p._lines.sym_len()})
+                "checked as each line is buffered, not when the block ends",
+                witness={"lines": p._lines.sym_len(), "max_headers": p.max_headers})
 
     def at_back(L):
         line_obligations(L)
@@ -660,7 +662,7 @@ def http_feed_data(u: U):
                     "first half of the terminator and does not count towards the line - otherwise a line of exactly the "
                     "limit is accepted in one read and refused when the read boundary falls between its CR and LF",
                     known=[("F3e", And(last == 13, blen(t) == limit + 1))],
-                    witness={"tail_len": blen(t), "limit": limit, "last_byte": last})
+                    witness={"tail_len": blen(t), "limit": limit, "last_byte": last, "first_line": first})
         return
     L = u.last_locals.get(FN_HP, {})
     messages, upgraded, rest = out.value
